@@ -1,5 +1,6 @@
-// C15 part of the harness: pair.Seq[int,int] expressions mixed with seq.Seq[int] through
-// pair.ToSeq / pair.FromSeq.  Grammar: see lean/Golem/Driver/C15.lean.
+// C15 part of the harness: pair.Seq[K,V] expressions mixed with seq.Seq[E] through
+// pair.ToSeq / pair.FromSeq, at the typings of types.go (K = V = E = int is the one compared with the
+// model).  Grammar: see lean/Golem/Driver/C15.lean.
 package main
 
 import (
@@ -95,17 +96,20 @@ func (p *parser) pairExpr() *node {
 	return nil
 }
 
-func buildPair(n *node, e env) pair.Seq[int, int] {
+// buildPair builds the expression with the real combinators at pair.Seq[K, V]; callbacks project key and
+// value, log the pair (ref.go) and work on the ints.
+func (ty *types[K, V, E]) buildPair(n *node, e env) pair.Seq[K, V] {
+	ck, cv := ty.k, ty.v
 	switch n.op {
 	case "PF":
-		return pair.From(n.terms[0].eval(e), n.terms[1].eval(e))
+		return pair.From(ck.inj(n.terms[0].eval(e)), cv.inj(n.terms[1].eval(e)))
 	case "PTW", "PDW", "PFI":
 		f0 := pred2(n.fn, e)
 		if f0 == nil {
 			panic(badFn{n.fn})
 		}
-		f := func(k, v int) bool { tick(); return f0(k, v) }
-		s := buildPair(n.kids[0], e)
+		f := func(k K, v V) bool { a, b := ck.prj(k), cv.prj(v); called(n, e, 2, a, b); return f0(a, b) }
+		s := ty.buildPair(n.kids[0], e)
 		switch n.op {
 		case "PTW":
 			return pair.TakeWhile(s, f)
@@ -118,32 +122,39 @@ func buildPair(n *node, e env) pair.Seq[int, int] {
 		if f0 == nil {
 			panic(badFn{n.fn})
 		}
-		return pair.Map(buildPair(n.kids[0], e), func(k, v int) int { tick(); return f0(k, v) })
+		return pair.Map(ty.buildPair(n.kids[0], e), func(k K, v V) V {
+			a, b := ck.prj(k), cv.prj(v)
+			called(n, e, 2, a, b)
+			return cv.inj(f0(a, b))
+		})
 	case "PPL":
-		l := buildPair(n.kids[0], e)
-		r := buildPair(n.kids[1], e)
+		l := ty.buildPair(n.kids[0], e)
+		r := ty.buildPair(n.kids[1], e)
 		return pair.Plus(l, r)
 	case "PJN":
 		body := n.kids[1]
-		return pair.Join(buildPair(n.kids[0], e), func(k, v int) pair.Seq[int, int] {
-			tick()
-			return buildPair(body, e.push(k, v))
+		return pair.Join(ty.buildPair(n.kids[0], e), func(k K, v V) pair.Seq[K, V] {
+			a, b := ck.prj(k), cv.prj(v)
+			called(n, e, 2, a, b)
+			return ty.buildPair(body, e.push(a, b))
 		})
 	case "FS":
 		body := n.kids[1]
-		return pair.FromSeq(buildSeq(n.kids[0], e), func(x int) pair.Seq[int, int] {
-			tick()
-			return buildPair(body, e.push(x))
+		return pair.FromSeq(ty.buildSeq(n.kids[0], e), func(x E) pair.Seq[K, V] {
+			a := ty.e.prj(x)
+			called(n, e, 1, a, 0)
+			return ty.buildPair(body, e.push(a))
 		})
 	}
 	panic(badFn{n.op})
 }
 
-func buildToSeq(n *node, e env) seq.Seq[int] {
+func (ty *types[K, V, E]) buildToSeq(n *node, e env) seq.Seq[E] {
 	body := n.kids[1]
-	return pair.ToSeq(buildPair(n.kids[0], e), func(k, v int) seq.Seq[int] {
-		tick()
-		return buildSeq(body, e.push(k, v))
+	return pair.ToSeq(ty.buildPair(n.kids[0], e), func(k K, v V) seq.Seq[E] {
+		a, b := ty.k.prj(k), ty.v.prj(v)
+		called(n, e, 2, a, b)
+		return ty.buildSeq(body, e.push(a, b))
 	})
 }
 
@@ -157,18 +168,18 @@ func kvs(xs []kv) string {
 	return strings.Join(ss, " ")
 }
 
-func drainPair(n *node) (out string) {
+func (ty *types[K, V, E]) drainPair(n *node) (out string) {
 	defer func() {
 		if r := recover(); r != nil {
 			out = classify(r)
 		}
 	}()
 	ticks = 0
-	s := buildPair(n, nil)
+	s := ty.buildPair(n, nil)
 	var got []kv
 	for has := s != nil; has; has = s.Next() {
 		// Key() and Value() are read separately at each position
-		got = append(got, kv{s.Key(), s.Value()})
+		got = append(got, kv{ty.k.prj(s.Key()), ty.v.prj(s.Value())})
 		if len(got) > runawayLimit {
 			return "runaway"
 		}
@@ -176,19 +187,19 @@ func drainPair(n *node) (out string) {
 	return kvs(got)
 }
 
-func forEachPair(n *node, errAt int) (out string) {
+func (ty *types[K, V, E]) forEachPair(n *node, errAt int) (out string) {
 	defer func() {
 		if r := recover(); r != nil {
 			out = classify(r)
 		}
 	}()
 	ticks = 0
-	s := buildPair(n, nil)
+	s := ty.buildPair(n, nil)
 	var log []kv
 	var sent *visitErr
-	err := pair.ForEach(s, func(k, v int) error {
+	err := pair.ForEach(s, func(k K, v V) error {
 		idx := len(log)
-		log = append(log, kv{k, v})
+		log = append(log, kv{ty.k.prj(k), ty.v.prj(v)})
 		if idx == errAt {
 			sent = &visitErr{idx}
 			return sent
@@ -230,16 +241,5 @@ func runC15(line string) string {
 	if err != nil || p.bad || p.pos != len(p.toks) {
 		return "bad-case"
 	}
-	sources = sources[:0]
-	var d, f string
-	if toks[1] == "S" {
-		d, f = drainSeq(n), forEachSeq(n, errAt)
-	} else {
-		d, f = drainPair(n), forEachPair(n, errAt)
-	}
-	src := "ok"
-	if !sourcesIntact() {
-		src = "MODIFIED"
-	}
-	return d + "|" + f + "|src=" + src
+	return runCase(line, n, errAt, toks[1] == "P", typingsC15)
 }
